@@ -101,6 +101,7 @@ PROPS["C04"] = {
     "units": [
         {"test": "^TestRegressC04$", "norapid": True, "quick": {"shards": 1}, "thorough": {"shards": 1}},
         {"test": "^TestC04RenameCycle$", "norapid": True, "quick": {"shards": 6}, "thorough": {"shards": 6}},
+        {"test": "^TestC04CommitWindow$", "norapid": True, "quick": {"shards": 2}, "thorough": {"shards": 2}},
         {"test": "^TestC04Seq$", "quick": {"checks": 60, "shards": 4}, "thorough": {"checks": 800, "shards": 8, "steps": 60}},
         {"test": "^TestC04BigDisk$", "quick": {"checks": 4, "shards": 4}, "thorough": {"checks": 60, "shards": 8}},
         {"test": "^TestC04Full$", "quick": {"checks": 40, "shards": 4, "steps": 40}, "thorough": {"checks": 500, "shards": 8, "steps": 60}},
